@@ -23,6 +23,7 @@ type FnResult struct {
 	Loops     []string
 	InstrCount int
 	header     string
+	wf         func(h string) bool
 }
 
 // GenFunc generates the obligations of one function under contract.
@@ -35,6 +36,7 @@ func (g *Gen) GenFunc(key string) (res *FnResult) {
 	}
 	con := g.CS.Funcs[key]
 	c := &FnCtx{g: g, top: fn, contract: con, assumed: map[string]bool{}}
+	res.wf = c.wantWF
 	defer func() {
 		res.Obls = c.obls
 		res.Lines = c.lines
@@ -246,7 +248,7 @@ func (g *Gen) HeaderFor(r *FnResult) string {
 			continue
 		}
 		fmt.Fprintf(&b, "(declare-const %s %s)\n", p[0], g.TE.heapSort[p[1]])
-		if g.WFAxioms {
+		if g.WFAxioms || (r != nil && r.wf != nil && r.wf(p[1])) {
 			ep := p[0][strings.LastIndex(p[0], "@")+1:]
 			if ax := wfHeapAxiom(p[0], g.TE.heapSort[p[1]], "wfnext@"+ep); ax != "" {
 				b.WriteString(ax + "\n")
